@@ -326,6 +326,20 @@ def generated_rejects():
 # declaration and must be accepted, so that the rejection is due to the fault and not to the surrounding program.
 DECL_MAIN = "class Main { function main(): unit = {  } }\n"
 DECL_FAULTS = {
+    # one generic interface reached twice with different type arguments: each instantiation constrains the member
+    "conformance_second_instantiation_via_interfaces": (
+        "interface Producer<T> { method produce(): T }\ninterface IntP : Producer<int> {}\ninterface BoolP : Producer<bool> {}\n"
+        "class One(val v: int) : IntP, BoolP { method produce(): int = this.v }\n",
+        "interface Producer<T> { method produce(): T }\ninterface IntP : Producer<int> {}\ninterface BoolP : Producer<bool> {}\n"
+        "class One(val v: int) : IntP { method produce(): int = this.v }\n"),
+    "conformance_second_instantiation_direct": (
+        "interface Producer<T> { method produce(): T }\nclass One(val v: int) : Producer<int>, Producer<bool> { method produce(): int = this.v }\n",
+        "interface Producer<T> { method produce(): T }\nclass One(val v: int) : Producer<int> { method produce(): int = this.v }\n"),
+    "conformance_second_instantiation_reversed": (
+        "interface Producer<T> { method produce(): T }\ninterface IntP : Producer<int> {}\ninterface BoolP : Producer<bool> {}\n"
+        "class One(val v: int) : BoolP, IntP { method produce(): int = this.v }\n",
+        "interface Producer<T> { method produce(): T }\ninterface IntP : Producer<int> {}\ninterface BoolP : Producer<bool> {}\n"
+        "class One(val v: int) : IntP { method produce(): int = this.v }\n"),
     "type_arguments_on_type_parameter": (
         "class Util { function <T> f(x: T<int>, y: int): int = y }\n",
         "class Util { function <T> f(x: T, y: int): int = y }\n"),
